@@ -44,14 +44,26 @@ SIZES = {
     "unknown": (1.0, 1.2, 1.0),
     "false_positive": (1.5, 2.5, 1.5),
 }
+ALIASES = {
+    "car": ["vehicle.car", "vehicle.police", "Car"],
+    "truck": ["vehicle.truck", "trailer"],
+    "bus": ["vehicle.bus", "Bus"],
+    "bicycle": ["vehicle.bicycle"],
+    "motorbike": ["motorcycle", "vehicle.motorcycle"],
+    "pedestrian": ["pedestrian.adult", "stroller"],
+    "unknown": ["animal", "forklift"],
+}
+ALIASES_MERGED = {"car": ["truck", "bus", "trailer", "vehicle.truck"], "bicycle": ["motorbike", "motorcycle"]}
+TARGET_ALIAS = {"car": "vehicle.car", "truck": "vehicle.truck", "bus": "vehicle.bus", "bicycle": "vehicle.bicycle",
+                "motorbike": "vehicle.motorcycle", "pedestrian": "pedestrian.adult"}
 ATTRS = ["vehicle_state.moving", "vehicle_state.parked", "cycle_state.without_rider", "pedestrian_state.standing"]
 
 FAULT_KINDS = [
     # perception content
-    "miss", "ghost", "dup_detection", "label_flip", "label_unknown", "conf_tie", "pose_noise", "yaw_flip",
-    "size_noise", "wrong_frame_id",
+    "miss", "ghost", "dup_detection", "label_flip", "label_unknown", "label_alias", "conf_tie", "conf_near_tie", "pose_noise",
+    "yaw_flip", "size_noise", "wrong_frame_id",
     # tracker
-    "id_new", "id_swap", "id_dup",
+    "id_new", "id_swap", "id_dup", "id_steal",
     # clock
     "skew_offset", "drift", "jitter", "jump_back", "jump_forward", "stamp_edge",
     # transport
@@ -100,8 +112,8 @@ PROFILES = {
         "tasks": {"tracking": 1},
         "clean_p": 0.3,
         "force": ["id_new", "id_swap"],
-        "fault_pool": ["miss", "ghost", "label_flip", "pose_noise", "id_new", "id_swap", "id_dup", "drop", "reorder",
-                       "scene_query", "dup_detection"],
+        "fault_pool": ["miss", "ghost", "label_flip", "label_alias", "pose_noise", "id_new", "id_swap", "id_dup", "id_steal", "drop",
+                       "reorder", "scene_query", "dup_detection"],
         "small_ids": True,
         "max_samples": 9,
         "max_actors": 5,
@@ -109,6 +121,7 @@ PROFILES = {
         "fp_gt_p": 0.0,
     },
     "c17": {
+        "far_p": 0.15,
         "force": ["skew_offset", "jitter", "stamp_edge"],
         "fault_pool": ["skew_offset", "drift", "jitter", "jump_back", "jump_forward", "stamp_edge", "drop", "reorder",
                        "delay", "miss", "ghost"],
@@ -125,12 +138,12 @@ PROFILES = {
         "max_samples": 8,
     },
     "c03": {"narrow_crit_p": 0.6, "fp_gt_p": 0.2, "tasks": {"detection": 4, "tracking": 3, "fp_validation": 3}},
-    "c16": {"sibling_p": 0.5, "ego_tilt_p": 0.5, "max_samples": 24, "max_actors": 16, "enable_p": 0.1, "tasks": {"detection": 3, "tracking": 3, "fp_validation": 1}},
+    "c16": {"far_p": 0.15, "raw_p": 0.3, "sibling_p": 0.5, "ego_tilt_p": 0.5, "max_samples": 24, "max_actors": 16, "enable_p": 0.1, "tasks": {"detection": 3, "tracking": 3, "fp_validation": 1}},
     "c19": {"sibling_p": 0.35, "analyze_p": 1.0, "force": ["analyze"], "fp_gt_p": 0.15, "max_samples": 10,
             "tasks": {"detection": 5, "tracking": 3, "fp_validation": 2}},
     "c01": {"force": ["ghost", "dup_detection"], "contested_p": 0.7, "tasks": {"detection": 5, "tracking": 2, "fp_validation": 3},
             "fp_gt_p": 0.2},
-    "c04": {"force": ["ghost", "label_flip"], "multi_thr_p": 0.8, "tasks": {"detection": 3, "tracking": 2}},
+    "c04": {"force": ["ghost", "label_flip", "conf_near_tie"], "multi_thr_p": 0.8, "tasks": {"detection": 3, "tracking": 2}},
     "c08": {"force": ["dup", "pf_change", "pose_noise"], "multi_thr_p": 1.0, "tasks": {"detection": 3, "tracking": 2}},
     "c10": {"force": ["ghost", "label_unknown", "crit_change"], "narrow_crit_p": 0.7, "fp_gt_p": 0.15},
 }
@@ -190,6 +203,11 @@ def _make_world(rng, prof, task):
     ego = [rng.uniform(-500, 500), rng.uniform(-500, 500), rng.uniform(-5, 5), rng.uniform(-math.pi, math.pi)]
     if rng.random() < 0.1:
         ego = [0.0, 0.0, 0.0, 0.0]
+    if rng.random() < prof.get("far_p", 0.0):
+        # map coordinates far from the origin (MGRS / UTM like)
+        ego[0] += rng.choice([-1, 1]) * rng.uniform(2e4, 9.5e4)
+        ego[1] += rng.choice([-1, 1]) * rng.uniform(2e4, 9.5e4)
+    hilly = rng.random() < 0.15
     speed = rng.choice([0.0, rng.uniform(0, 15)])
     tilt = rng.random() < prof.get("ego_tilt_p", 0.0)
     yaw_rate = rng.choice([0.0, rng.uniform(-0.4, 0.4)])
@@ -229,12 +247,17 @@ def _make_world(rng, prof, task):
             ref = next(st for st in other["states"] if st is not None)["pose"]
             p0 = [ref[0] + rng.uniform(-3, 3), ref[1] + rng.uniform(-3, 3), ref[2] + rng.uniform(-0.3, 0.3)]
         else:
-            rel = (rng.uniform(-range_scale, range_scale), rng.uniform(-range_scale, range_scale), rng.uniform(-1, 1))
+            rel = (rng.uniform(-range_scale, range_scale), rng.uniform(-range_scale, range_scale),
+                   rng.uniform(-8, 8) if hilly else rng.uniform(-1, 1))
+            if rng.random() < 0.08:
+                rel = (rng.uniform(-3, 3), rng.uniform(-3, 3), rel[2])  # right next to (or above / below) the ego
             p0 = list(rm.ego_to_map(samples[0]["ego"], rel))
         yaw = rng.uniform(-math.pi, math.pi)
         if rng.random() < 0.15:
             yaw = rng.choice([0.0, math.pi / 2, math.pi, -math.pi / 2, math.pi - 1e-3, -math.pi + 1e-3])
         v = rng.choice([0.0, rng.uniform(0, 12)])
+        if rng.random() < 0.1:
+            v = rng.uniform(0.001, 0.05)  # creeping: millimetres per frame
         w = rng.choice([0.0, 0.0, rng.uniform(-0.8, 0.8)])
         first = 0 if rng.random() < 0.7 else rng.randrange(0, n)
         last = n - 1 if rng.random() < 0.7 else rng.randrange(first, n)
@@ -304,6 +327,11 @@ def _make_storage(rng, prof):
             st["order"][tb] = {"rot": rng.randrange(0, 50), "rev": rng.random() < 0.5}
     if rng.random() < 0.2:
         st["extra_categories"] = ["static_object.bollard"]
+    if rng.random() < prof.get("raw_p", 0.0):
+        st["raw"] = True          # raw sensor files exist and the evaluator is asked to load them
+    if st["extra_sensors"] and rng.random() < 0.5:
+        # as in real recordings every sensor's record has its own ego pose (slightly different capture time)
+        st["sensor_ego_offset"] = [_r(rng.uniform(0.1, 0.6)), _r(rng.uniform(-0.2, 0.2)), _r(rng.uniform(-0.02, 0.02), 4)]
     return st
 
 
@@ -389,6 +417,10 @@ def _make_config(rng, prof, world):
     task = world["_task"]
     merge = rng.random() < 0.3
     pool = ["car", "bicycle", "pedestrian", "unknown"] if merge else ["car", "truck", "bus", "bicycle", "motorbike", "pedestrian", "unknown"]
+    if merge and rng.random() < 0.3:
+        # merging switched on while the target list still names the unmerged classes: several entries collapse onto one
+        # label (legal; the first entry of a label is the one whose thresholds apply)
+        pool = ["car", "truck", "bus", "bicycle", "motorbike", "pedestrian", "unknown"]
     k = rng.randint(1, min(4, len(pool)))
     if prof.get("small_ids"):
         k = rng.randint(1, 3)
@@ -404,6 +436,8 @@ def _make_config(rng, prof, world):
         top = max(sorted(set(present)), key=present.count)
         if top not in labels:
             labels[0] = top
+    if rng.random() < 0.15:
+        labels = [TARGET_ALIAS.get(l, l) if rng.random() < 0.5 else l for l in labels]  # registered alias spellings
     n = len(labels)
     frame = _wchoice(rng, prof["frames"])
     scale = rng.choice([30.0, 60.0, 120.0])
@@ -554,6 +588,7 @@ def make_plan(seed, run, profile_name, clean=None, force=None):
         bias = {ai: (0.0, 0.0, 0.0, 0.0) for ai in range(len(actors))}
     base_conf = {ai: rng.uniform(0.2, 0.99) for ai in range(len(actors))}
     next_fresh = [0]
+    near_tie_carry = [None]
 
     def fresh_id():
         next_fresh[0] += 1
@@ -610,9 +645,19 @@ def make_plan(seed, run, profile_name, clean=None, force=None):
             swp = [a1, a2]
         else:
             swp = None
+        stolen = None
+        if tracking and len(live) >= 2 and fire("id_steal"):
+            # the tracker loses target A and its track id drifts onto target B (B's own id is dropped)
+            a_lost, b_takes = rng.sample(live, 2)
+            track_id[b_takes] = track_id[a_lost]
+            track_id[a_lost] = fresh_id()
+            stolen = a_lost
+            note("id_steal")
         for ai in live:
             a = actors[ai]
             f = []
+            if ai == stolen:
+                continue
             if fire("miss"):
                 note("miss")
                 continue
@@ -649,6 +694,12 @@ def make_plan(seed, run, profile_name, clean=None, force=None):
                 lab = "unknown"
                 f.append("label_unknown")
                 note("label_unknown")
+            if fire("label_alias"):
+                al = list(ALIASES.get(lab, [])) + (list(ALIASES_MERGED.get(lab, [])) if merge else [])
+                if al:
+                    lab = rng.choice(al)  # another registered spelling of the same class
+                    f.append("label_alias")
+                    note("label_alias")
             conf = min(0.999999, max(0.000001, base_conf[ai] + rng.uniform(-0.05, 0.05)))
             o = {
                 "src": ai,
@@ -707,6 +758,17 @@ def make_plan(seed, run, profile_name, clean=None, force=None):
             for o in objs[: rng.randint(2, max(2, len(objs)))]:
                 o["conf"] = c
             note("conf_tie")
+        if len(objs) >= 2 and fire("conf_near_tie"):
+            # confidences that differ, but only in the last bits of a double
+            c = objs[0]["conf"]
+            for j, o in enumerate(objs[1:1 + rng.randint(1, 3)], 1):
+                o["conf"] = c + j * 2e-9
+            note("conf_near_tie")
+        elif objs and near_tie_carry[0] is not None and fire("conf_near_tie"):
+            objs[0]["conf"] = near_tie_carry[0] + 3e-9  # ... or across two messages (pooled scene ranking)
+            note("conf_near_tie")
+        if objs:
+            near_tie_carry[0] = objs[0]["conf"]
         if rng.random() < 0.3:
             rng.shuffle(objs)
         # clock reading for this message
@@ -746,7 +808,7 @@ def make_plan(seed, run, profile_name, clean=None, force=None):
                 if c in seen:
                     c = _r(rng.uniform(0.01, 0.99), 6)
             seen.add(c)
-            o["conf"] = c
+            o["conf"] = min(0.9999999, c)
 
     # ---- transport: discrete-event simulation of delivery -------------------------------------------
     events = []  # (time, seq, kind, payload)
